@@ -63,6 +63,8 @@ def run_driven(case):
             nops += 1
             if d["op"] == "update":
                 ncon_upd += nmod
+    if r.hook_errors:
+        raise RuntimeError("monitor hook failed:\n" + r.hook_errors[0])
     counts = mon.counts()
     counts["driven_operations"] = nops
     counts["constraint_model_updates"] = ncon_upd
